@@ -241,7 +241,9 @@ def _nest(flat):
 
 def _rand_opts(rng, pool, lo=1, hi=3):
     ks = rng.sample(pool, rng.randint(lo, min(hi, len(pool))))
-    return _nest({k: rng.choice([1, 2, 9, "v", "w", None, [1, 2]]) for k in ks})
+    # (a list under a dispatch key is unhashable: raw TypeError out of Switch, a generator artefact)
+    return _nest({k: rng.choice([1, 2, "x", "y", "v", None] if k in DKEYS else [1, 2, 9, "v", "w", None, [1, 2]])
+                  for k in ks})
 
 
 def _params(rng, names, kind):
@@ -956,10 +958,7 @@ def child_main(jobfile):
             mod = importlib.import_module(it["module"])
             if it.get("bundle"):
                 r["gs"] = generic_state(h)
-                base, der = h
-                out = reg(lambda: base.register(it["new_alias"], mod.extra))
-                r["register"] = out[0] if out[0] != "fail" else "fail:" + out[1]
-                r["obs_reg"] = strip_log(observe(der, it["reg_dicts"], mod.LOG)) if out[0] == "ok" else None
+                target, obj = h
             else:
                 r["gs"] = generic_state(h)
                 try:
@@ -967,9 +966,11 @@ def child_main(jobfile):
                 except Unmodelled as e:
                     r["ms"] = ["unmodelled", str(e)]
                 r["obs"] = observe(h, it["dicts"], mod.LOG)
-                out = reg(lambda: h.register(it["new_alias"], mod.extra))
-                r["register"] = out[0] if out[0] != "fail" else "fail:" + out[1]
-                r["obs_reg"] = strip_log(observe(h, it["reg_dicts"], mod.LOG)) if out[0] == "ok" else None
+                target = obj = h
+            r["pre"] = strip_log(observe(obj, it["reg_dicts"], mod.LOG))
+            out = reg(lambda: target.register(it["new_alias"], mod.extra))
+            r["register"] = out[0] if out[0] != "fail" else "fail:" + out[1]
+            r["post"] = strip_log(observe(obj, it["reg_dicts"], mod.LOG)) if out[0] == "ok" else None
         except Exception as e:  # noqa: BLE001
             r["error"] = type(e).__name__
         res.append(r)
@@ -1192,6 +1193,10 @@ class ModuleRun:
                         except Exception as e:  # noqa: BLE001
                             self.v("re-pickling an unpickled dataset fails", name, protocol=p, mode=mode,
                                    error=type(e).__name__)
+                    # the copy accepts a registration; the fresh interpreter must see the very same
+                    status, pre, post = self.register_and_observe(h, rec)
+                    if self.judge_registration(rec, status, pre, post, p, mode):
+                        rec.setdefault("inproc", {})[(tag, p)] = [status, strip_log(pre), strip_log(post)]
 
     def phase_state_model(self):
         """Model correspondence on states: fresh copies (no observation in between)."""
@@ -1248,15 +1253,59 @@ class ModuleRun:
             out.append(_nest_set(full, dk, "nope"))
         return alias, out
 
-    def phase_register_copies(self):
-        """Unpickled copies accept a further registration (under a timeout) and dispatch to it."""
+    # --- registration after the round trip
+    NEW_ALIAS_IDX = 2     # index in reg_dicts of the dictionary selecting the new alias (when there is one)
+
+    def register_and_observe(self, h, rec, target=None):
+        """pre-observation, register(alias, extra) under a timeout, post-observation.
+        Returns (status, pre, post)."""
         log = self.mod.LOG
+        pre = observe(h, rec["rdicts"], log)
+        if self.timeouts >= 3:
+            return "skipped", pre, None
+        t = h if target is None else target
+        out = with_timeout(lambda: t.register(rec["alias"], self.mod.extra), REGISTER_TIMEOUT)
+        self.stats["register_checks"] += 1
+        if out[0] == "timeout":
+            self.timeouts += 1
+            return "timeout", pre, None
+        if out[0] == "fail":
+            return "fail:" + out[1], pre, None
+        post = observe(h, rec["rdicts"], log)
+        self.count_obs(pre)
+        self.count_obs(post)
+        return "ok", pre, post
+
+    def judge_registration(self, rec, status, pre, post, p, mode):
+        """Oracle on one object: it accepts the registration; dispatch values other than the new
+        alias behave as before."""
+        name = rec["name"]
+        if status == "timeout":
+            self.v("register on the unpickled dataset does not return (lock never released): deadlock",
+                   name, protocol=p, mode=mode, timeout_s=REGISTER_TIMEOUT, alias=rec["alias"])
+            return False
+        if status.startswith("fail"):
+            self.v("unpickled dataset rejects a further registration", name, protocol=p, mode=mode,
+                   error=status[5:], alias=rec["alias"])
+            return False
+        if status != "ok":
+            return False
+        for i, o in enumerate(rec["rdicts"]):
+            if i == self.NEW_ALIAS_IDX and len(rec["rdicts"]) > 2:
+                continue
+            a, b = strip_log([pre[i]])[0], strip_log([post[i]])[0]
+            if a != b:
+                self.v("a further registration on the unpickled dataset changed the behaviour for OTHER dispatch values",
+                       name, protocol=p, mode=mode, options=o, alias=rec["alias"], before=a, after=b)
+                return False
+        return True
+
+    def phase_register_copies(self):
+        """Cold copies (state A): accept a registration; the model predicts the observations."""
         R = self.R
         for name, rec in self.graphs.items():
             if name == "__bundles__":
                 continue
-            alias, rdicts = self.reg_dicts(name)
-            rec["alias"], rec["rdicts"], rec["reg_obs"] = alias, rdicts, []
             for p in (0, 3, 5):
                 data, bypass = self.data_for(rec, "A", p)
                 if data is None:
@@ -1266,44 +1315,32 @@ class ModuleRun:
                     h = loads(data, bypass)
                 except Exception:  # noqa: BLE001  (already reported)
                     continue
-                if self.timeouts >= 3:
+                status, pre, post = self.register_and_observe(h, rec)
+                if not self.judge_registration(rec, status, pre, post, p, mode):
                     continue
-                out = with_timeout(lambda: h.register(alias, self.mod.extra), REGISTER_TIMEOUT)
-                self.stats["register_checks"] += 1
-                if out[0] == "timeout":
-                    self.timeouts += 1
-                    self.v("register on the unpickled dataset does not return (lock never released): deadlock",
-                           name, protocol=p, mode=mode, timeout_s=REGISTER_TIMEOUT, alias=alias)
-                    continue
-                if out[0] == "fail":
-                    self.v("unpickled dataset rejects a further registration", name, protocol=p, mode=mode,
-                           error=out[1], alias=alias)
-                    continue
-                obs = strip_log(observe(h, rdicts, log))
-                self.count_obs(obs)
-                rec["reg_obs"].append((p, mode, obs))
                 if rec["msA"] is not None and p == 5:
                     term = R.g_node(rec["msA"])
                     P = "{| locks := []; next_lock := 5000; next_id := 9000 |}"
                     extra_ms = model_state(self.mod.extra)[0]
-                    for o, ob in zip(rdicts, obs):
+                    for o, ob in zip(rec["rdicts"], post):
                         self.model_case(
-                            f"observe_registered {self.ftable} {P} {term} {R.g_hkey(alias)} {R.g_node(extra_ms)} {R.g_dict(o)}",
+                            f"observe_registered {self.ftable} {P} {term} {R.g_hkey(rec['alias'])} {R.g_node(extra_ms)} {R.g_dict(o)}",
                             R.s_obs(ob), dict(what="observe after register on the copy", graph=name, options=o, protocol=p))
 
     def phase_bundles(self):
-        """base + derivative pickled together: sharing of the overload table survives."""
+        """base + derivative pickled together (state B): sharing of the overload table survives;
+        a registration on the unpickled base is seen through the unpickled derivative."""
         for dv in self.spec.get("derived", []):
             if self.only and self.only not in (dv["name"], dv["base"]):
                 continue
             base, der = getattr(self.mod, dv["base"]), getattr(self.mod, dv["name"])
             bundle = [base, der]
             gs0 = generic_state(bundle)
-            alias, rdicts = "newb_" + dv["name"], None
+            alias = "newb_" + dv["name"]
             dk, _ = own_dispatch_key(self.spec, dv["base"])
             full = self.dicts[1]
-            rdicts = [_nest_set(full, dk, alias)] if dk else [full]
-            rec = {"name": dv["name"], "gs": gs0, "alias": alias, "rdicts": rdicts, "obs": [], "bytes": {}}
+            rdicts = [{}, full] + ([_nest_set(full, dk, alias), _nest_set(full, dk, "nope")] if dk else [])
+            rec = {"name": dv["name"], "gs": gs0, "alias": alias, "rdicts": rdicts, "inproc": {}, "bytes": {}}
             self.graphs.setdefault("__bundles__", {})[dv["name"]] = rec
             for p in (2, 5):
                 bypass = False
@@ -1329,55 +1366,76 @@ class ModuleRun:
                 if gs != gs0:
                     self.v("structural state (incl. sharing between a dataset and its with_options derivative) differs "
                            "after the round trip", dv["name"], protocol=p, mode="in-process bundle", diff=first_diff(gs0, gs))
-                if self.timeouts >= 3:
-                    continue
-                out = with_timeout(lambda: hb[0].register(alias, self.mod.extra), REGISTER_TIMEOUT)
-                if out[0] == "timeout":
-                    self.timeouts += 1
-                    self.v("register on the unpickled dataset does not return (lock never released): deadlock",
-                           dv["name"], protocol=p, mode="in-process bundle", timeout_s=REGISTER_TIMEOUT)
-                    continue
-                if out[0] == "fail":
-                    self.v("unpickled dataset rejects a further registration", dv["name"], protocol=p,
-                           mode="in-process bundle", error=out[1])
-                    continue
-                rec["obs"].append((p, strip_log(observe(hb[1], rdicts, self.mod.LOG))))
+                status, pre, post = self.register_and_observe(hb[1], rec, target=hb[0])
+                if self.judge_registration(rec, status, pre, post, p, "in-process bundle"):
+                    rec["inproc"][p] = [status, strip_log(pre), strip_log(post)]
 
-    def phase_register_originals(self):
-        """Finally register on the originals themselves: the reference for every copy."""
-        log = self.mod.LOG
+    def phase_register_same_state(self):
+        """"Exactly as on the original": snapshot the original NOW, unpickle, apply the same
+        registration to the copy and to the original, compare everything (same state, same history).
+        This is the only phase that mutates the module's own graphs."""
         for name, rec in self.graphs.items():
             if name == "__bundles__":
                 continue
             g = getattr(self.mod, name)
-            out = with_timeout(lambda: g.register(rec["alias"], self.mod.extra), REGISTER_TIMEOUT)
-            if out[0] != "ok":
-                self.v("register on the ORIGINAL dataset fails", name, error=str(out))
-                rec["reg_ref"] = None
+            copies = []
+            for p in (1, 4):
+                try:
+                    bypass = not rec["picklable"]
+                    h = loads(dumps(g, p, bypass), bypass)
+                except Exception as e:  # noqa: BLE001
+                    self.v("re-pickling the original in its current state fails", name, protocol=p, error=type(e).__name__)
+                    continue
+                mode = "in-process, same state as the original" + ("/d18-bypass" if bypass else "")
+                status, pre, post = self.register_and_observe(h, rec)
+                if self.judge_registration(rec, status, pre, post, p, mode):
+                    copies.append((p, mode, pre, post))
+            status, pre_g, post_g = self.register_and_observe(g, rec)
+            if status != "ok":
+                self.v("register on the ORIGINAL dataset fails", name, error=status)
                 continue
-            rec["reg_ref"] = strip_log(observe(g, rec["rdicts"], log))
+            for p, mode, pre, post in copies:
+                for what, a_list, b_list in (("before", pre_g, pre), ("after", post_g, post)):
+                    for o, a, b in zip(rec["rdicts"], a_list, b_list):
+                        if a != b:
+                            fields = [k for k in a if a[k] != b.get(k)]
+                            self.v(f"{what} a further registration the unpickled dataset behaves differently from the original "
+                                   f"{what} the same registration", name, protocol=p, mode=mode, options=o, alias=rec["alias"],
+                                   fields=fields, original={k: a[k] for k in fields}, unpickled={k: b.get(k) for k in fields})
+                            break
             dk, direct = own_dispatch_key(self.spec, name)
-            for p, mode, obs in rec["reg_obs"]:
-                self.check_reg(rec, obs, p, mode)
             if dk is not None and direct and not self.dispatch_pinned(name, dk):
-                # the new alias dispatches to the new overload (sanity of the reference itself)
-                v = rec["reg_ref"][2]["v"]
+                v = post_g[self.NEW_ALIAS_IDX]["v"]
                 if v[0] == "ok" and "extra_impl" not in json.dumps(v[1]):
                     self.v("after register(k, v) the ORIGINAL does not dispatch to v for k", name,
-                           options=rec["rdicts"][2], value=v)
+                           options=rec["rdicts"][self.NEW_ALIAS_IDX], value=v)
         for dname, rec in self.graphs.get("__bundles__", {}).items():
             dv = [d for d in self.spec["derived"] if d["name"] == dname][0]
             base, der = getattr(self.mod, dv["base"]), getattr(self.mod, dv["name"])
-            out = with_timeout(lambda: base.register(rec["alias"], self.mod.extra), REGISTER_TIMEOUT)
-            rec["ref"] = strip_log(observe(der, rec["rdicts"], self.mod.LOG)) if out[0] == "ok" else None
-            for p, obs in rec["obs"]:
-                if rec["ref"] is not None and obs != rec["ref"]:
-                    self.v("registration on the unpickled base is not seen through the unpickled with_options derivative "
-                           "as it is on the originals", dname, protocol=p, mode="in-process bundle",
-                           options=rec["rdicts"][0], original=rec["ref"], unpickled=obs)
+            try:
+                bypass = False
+                try:
+                    data = dumps([base, der], 5)
+                except Exception:  # noqa: BLE001
+                    bypass = True
+                    data = dumps([base, der], 5, bypass=True)
+                hb = loads(data, bypass)
+            except Exception as e:  # noqa: BLE001
+                self.v("re-pickling a bundle in its current state fails", dname, error=type(e).__name__)
+                continue
+            st_h, pre_h, post_h = self.register_and_observe(hb[1], rec, target=hb[0])
+            st_g, pre_g, post_g = self.register_and_observe(der, rec, target=base)
+            if not self.judge_registration(rec, st_h, pre_h, post_h, 5, "in-process bundle, same state as the originals"):
+                continue
+            if st_g == "ok" and (pre_h, post_h) != (pre_g, post_g):
+                i = next(i for i in range(len(rec["rdicts"])) if (pre_h[i], post_h[i]) != (pre_g[i], post_g[i]))
+                self.v("registration on the unpickled base is not seen through the unpickled with_options derivative "
+                       "as it is on the originals", dname, protocol=5, mode="in-process bundle, same state as the originals",
+                       options=rec["rdicts"][i], original=[pre_g[i], post_g[i]], unpickled=[pre_h[i], post_h[i]])
 
     def dispatch_pinned(self, name, dk):
         g = getattr(self.mod, name)
+
         def has(d, key):
             cur = d
             for s in key.split("."):
@@ -1386,26 +1444,6 @@ class ModuleRun:
                 cur = cur[s]
             return True
         return has(g.options, dk)
-
-    def check_reg(self, rec, obs, p, mode):
-        ref = rec.get("reg_ref")
-        if obs is not None:
-            for i in (0, 1):   # {} and the sufficient dictionary: not dispatching to the new alias
-                before = rec["obsA"][i]
-                if any(obs[i][f] != json.loads(json.dumps(before[f])) for f in ("v", "k", "x")):
-                    self.v("a further registration on the unpickled dataset changed the behaviour for OTHER dispatch values",
-                           rec["name"], protocol=p, mode=mode, options=self.dicts[i], alias=rec["alias"],
-                           before={f: before[f] for f in ("v", "k", "x")}, after={f: obs[i][f] for f in ("v", "k", "x")})
-                    break
-        if ref is None or obs is None:
-            return
-        for o, a, b in zip(rec["rdicts"], ref, obs):
-            if a != b:
-                fields = [k for k in a if a[k] != b.get(k)]
-                self.v("after a further registration the unpickled dataset behaves differently from the original "
-                       "after the same registration", rec["name"], protocol=p, mode=mode, options=o, alias=rec["alias"],
-                       original={k: a[k] for k in fields}, unpickled={k: b.get(k) for k in fields})
-                break
 
     # --- child jobs
     def child_items(self, protos_cold, protos_warm):
@@ -1439,61 +1477,46 @@ class ModuleRun:
         _, name, tag, p = r["id"].split(":")
         p = int(p)
         mode = f"fresh interpreter (PYTHONHASHSEED={hashseed})"
+        norm = lambda x: json.loads(json.dumps(x))  # noqa: E731
         if tag == "bundle":
             rec = self.graphs["__bundles__"][name]
-            if "error" in r:
-                self.v("unpickling a bundle in a fresh interpreter fails", name, protocol=p, mode=mode, error=r["error"])
-                return
-            self.stats["state_compares"] += 1
-            if r["gs"] != json.loads(json.dumps(rec["gs"])):
-                self.v("structural state (incl. sharing) differs after the round trip", name, protocol=p, mode=mode,
-                       diff=first_diff(json.loads(json.dumps(rec["gs"])), r["gs"]))
-            if r["register"] == "skipped":
-                pass
-            elif r["register"] != "ok":
-                self.v("unpickled dataset rejects a further registration" if r["register"] != "timeout" else
-                       "register on the unpickled dataset does not return: deadlock", name, protocol=p, mode=mode,
-                       error=r["register"])
-            elif rec.get("ref") is not None and r["obs_reg"] != rec["ref"]:
-                self.v("registration on the unpickled base is not seen through the unpickled with_options derivative "
-                       "as it is on the originals", name, protocol=p, mode=mode, options=rec["rdicts"][0],
-                       original=rec["ref"], unpickled=r["obs_reg"])
-            return
-        rec = self.graphs[name]
+            mode += " bundle"
+            want_gs, inproc, key = norm(rec["gs"]), rec["inproc"], p
+        else:
+            rec = self.graphs[name]
+            if isinstance(rec["bytes" + tag][p], Exception):
+                mode += "/d18-bypass"
+            want_gs, inproc, key = norm(rec["gs" + tag]), rec.get("inproc", {}), (tag, p)
         if "error" in r:
             self.v("unpickling in a fresh interpreter fails", name, protocol=p, mode=mode, state=tag, error=r["error"])
             return
-        bypass = isinstance(rec["bytes" + tag][p], Exception)
-        if bypass:
-            mode += "/d18-bypass"
-        want_gs = json.loads(json.dumps(rec["gs" + tag]))
         self.stats["state_compares"] += 1
         if r["gs"] != want_gs:
             self.v("structural state differs after the round trip", name, protocol=p, mode=mode, state=tag,
                    diff=first_diff(want_gs, r["gs"]))
-        self.count_obs(r["obs"])
-        want = json.loads(json.dumps(rec["obs" + tag]))
-        for o, a, b in zip(self.dicts, want, r["obs"]):
-            if a != b:
-                fields = [k for k in a if a[k] != b.get(k)]
-                self.v("unpickled dataset behaves differently from the original", name, protocol=p, mode=mode,
-                       state=tag, options=o, fields=fields, original={k: a[k] for k in fields},
-                       unpickled={k: b.get(k) for k in fields})
-                break
-        if r["register"] == "skipped":
-            pass
-        elif r["register"] == "timeout":
-            self.v("register on the unpickled dataset does not return (lock never released): deadlock", name,
-                   protocol=p, mode=mode, alias=rec["alias"])
-        elif r["register"] != "ok":
-            self.v("unpickled dataset rejects a further registration", name, protocol=p, mode=mode, error=r["register"],
-                   alias=rec["alias"])
-        else:
+        if tag != "bundle":
+            self.count_obs(r["obs"])
+            for o, a, b in zip(self.dicts, norm(rec["obs" + tag]), r["obs"]):
+                if a != b:
+                    fields = [k for k in a if a[k] != b.get(k)]
+                    self.v("unpickled dataset behaves differently from the original", name, protocol=p, mode=mode,
+                           state=tag, options=o, fields=fields, original={k: a[k] for k in fields},
+                           unpickled={k: b.get(k) for k in fields})
+                    break
+        # registration: judged on its own, then against the in-process copy made from the same bytes
+        if r["register"] != "skipped":
             self.stats["register_checks"] += 1
-            self.check_reg(rec, r["obs_reg"], p, mode)
+            ok = self.judge_registration(rec, r["register"], r["pre"], r["post"], p, mode)
+            ref = inproc.get(key)
+            if ok and ref is not None and [r["pre"], r["post"]] != norm(ref[1:]):
+                i = next(i for i in range(len(rec["rdicts"])) if (r["pre"][i], r["post"][i]) != (norm(ref[1][i]), norm(ref[2][i])))
+                self.v("before/after a further registration the dataset unpickled in a fresh interpreter behaves differently "
+                       "from the one unpickled in the pickling process", name, protocol=p, mode=mode, state=tag,
+                       options=rec["rdicts"][i], alias=rec["alias"], same_process=[norm(ref[1][i]), norm(ref[2][i])],
+                       fresh_interpreter=[r["pre"][i], r["post"][i]])
         # correspondence: the state found in the child (taken right after loading) vs the model's
         # setstate (getstate t) in a process whose _LOCKS does not know the old ids
-        if rec["ms" + tag] is not None and isinstance(r.get("ms"), list) and p in (0, 2, 5):
+        if tag != "bundle" and rec["ms" + tag] is not None and isinstance(r.get("ms"), list) and p in (0, 2, 5):
             if r["ms"][0] == "unmodelled":
                 self.mism.append(dict(where="state_of(unpickled copy) outside the model", graph=name, protocol=p, state=tag,
                                       mode=mode, error=r["ms"][1], module_spec=self.spec))
@@ -1593,7 +1616,7 @@ def run_specs(ctx, specs_dicts, hashseeds, only=None, quick=True):
         mr.phase_copies(protos_warm)
         mr.phase_state_model()
         mr.phase_register_copies()
-        mr.phase_register_originals()
+        mr.phase_register_same_state()
     child_stats = []
     budget = 150 if quick else 1500
     for hs, proc, outfile, n, t0 in children:
